@@ -105,10 +105,17 @@ func (w *world) collect() []*pool.Message {
 	return out
 }
 
-func newWorld(transport string, bw bool, limit int64) (*world, error) {
+// slowRunExit: how long after Close() the in-memory datagram session's reader returns in the `slowrun` cases
+const slowRunExit = 50 * time.Millisecond
+
+func newWorld(transport string, bw bool, limit int64, slowRun ...bool) (*world, error) {
 	w := &world{mid: 40000, isTCP: transport == "tcp"}
 	if !w.isTCP {
-		w.udp, w.us = mem.NewUDPConn(mem.UDPOpts{Blockwise: bw, BlockwiseSZX: blockwise.SZX16, BlockwiseTimeout: 3 * time.Second,
+		var exitDelay time.Duration
+		if len(slowRun) > 0 && slowRun[0] {
+			exitDelay = slowRunExit
+		}
+		w.udp, w.us = mem.NewUDPConn(mem.UDPOpts{Blockwise: bw, BlockwiseSZX: blockwise.SZX16, BlockwiseTimeout: 3 * time.Second, RunExitDelay: exitDelay,
 			Mutate: func(cfg *udpclient.Config) {
 				cfg.LimitClientParallelRequests = limit
 				cfg.LimitClientEndpointParallelRequests = limit
@@ -167,7 +174,7 @@ func runCase(t *testing.T, transport, op, point, cause string) (line string) {
 		if point == "queued" {
 			limit = 1
 		}
-		w, err := newWorld(transport, point == "midblock", limit)
+		w, err := newWorld(transport, point == "midblock", limit, point == "slowrun")
 		if err != nil {
 			line = "conn-error"
 			return
@@ -408,6 +415,10 @@ func runCase(t *testing.T, transport, op, point, cause string) (line string) {
 			w.tp.Close()
 		}
 		synctest.Wait()
+		if point == "slowrun" {
+			time.Sleep(slowRunExit + time.Millisecond) // the reader returns now; the done signal follows
+			synctest.Wait()
+		}
 		done := 0
 		select {
 		case <-w.cc.Done():
